@@ -145,6 +145,9 @@ func c15SendJoinCheck(ctx *vfCtx, c c15SendJoinCase) {
 	}
 	ctx.Class("via/" + viaClass)
 	ctx.Class("existing/" + c.Existing)
+	if c.Origin == c15Local {
+		ctx.Class(fmt.Sprintf("origin-is-local-server/validly-signed=%v", gSigned))
+	}
 	for _, f := range c.Faults {
 		ctx.Class("gen/" + f)
 	}
@@ -202,6 +205,16 @@ func c15SendJoinGen(t *rapid.T) c15SendJoinCase {
 	sigFault := ""
 	senderAlsoSigns := rapid.Bool().Draw(t, "senderAlsoSigns")
 	badEventID := false
+	// the requesting server may be the local server itself (a join "from" one of our own users): the
+	// handler's own counter-signature must not be able to stand in for the origin's signature
+	if rapid.IntRange(0, 5).Draw(t, "localOrigin") == 0 {
+		c.Origin, sender, stateKey = c15Local, c15Leo, raSK(c15Leo)
+		c.Faults = append(c.Faults, "origin-is-local-server")
+		if rapid.IntRange(0, 2).Draw(t, "localSigFaulty") > 0 {
+			sigFault = rapid.SampledFrom(c15SigFaults).Draw(t, "localSigFault")
+			c.Faults = append(c.Faults, "sig")
+		}
+	}
 	nf := rapid.SampledFrom([]int{0, 0, 1, 1, 1, 1, 2}).Draw(t, "nFaults")
 	for i := 0; i < nf; i++ {
 		f := rapid.SampledFrom([]string{"type", "membership", "state-key", "room", "event-id", "origin", "sender-other", "sender-malformed", "sig", "sig", "banned", "via", "querier"}).Draw(t, "fault")
